@@ -282,10 +282,17 @@ class FilterSummary:
 
     def _constraint_mask(self, d, s) -> Optional[Stage]:
         """d: mask expression; recognise  C <= 0  with C = cons(X), X = inverse(result)."""
+        negated = False
+        while isinstance(d, ast.UnaryOp) and isinstance(d.op, (ast.Invert, ast.Not)):
+            negated, d = not negated, d.operand
+        if isinstance(d, ast.Call) and call_name(d) in ("np.invert", "np.logical_not") and d.args:
+            negated, d = not negated, d.args[0]
         if not (isinstance(d, ast.Compare) and len(d.ops) == 1):
             return None
         l, r = d.left, d.comparators[0]
         op = type(d.ops[0])
+        if negated:
+            op = {ast.Lt: ast.GtE, ast.LtE: ast.Gt, ast.Gt: ast.LtE, ast.GtE: ast.Lt}.get(op, op)
         if const_num(l) is not None and const_num(r) is None:
             l, r = r, l
             op = {ast.Lt: ast.Gt, ast.Gt: ast.Lt, ast.LtE: ast.GtE, ast.GtE: ast.LtE}.get(op, op)
